@@ -1,5 +1,6 @@
 import PyGam.Proofs.Penalty
 import PyGam.Proofs.Kron
+import PyGam.Proofs.SplineShapeRows
 import Mathlib.Algebra.Order.Ring.Defs
 import Mathlib.Tactic.Linarith
 import Mathlib.Tactic.Positivity
@@ -153,6 +154,60 @@ theorem conMatrix_symm (n : Nat) (c : Nat → α) (k : ConKind) (i j : Nat) :
   cases k
   · rfl
   all_goals (simp only [conMatrix, convPen, monoPen]; exact maskedPen_symm _ _ _ _ _)
+
+/-! ### function level: the shape of the coefficients is the shape of the spline -/
+section function_level
+variable {β : Type} [Field β] [LinearOrder β] [IsStrictOrderedRing β] [HasFract β]
+
+/-- the fitted function of a (non-periodic) spline term with coefficients `c` -/
+def splineFn (ε : β) (cfg : BasisCfg β) (c : Nat → β) (x : β) : β :=
+  ∑ j ∈ range cfg.nSplines, c j * basisRow ε cfg x j
+
+theorem splineFn_eq (ε : β) (cfg : BasisCfg β) (hper : cfg.periodic = false) (c : Nat → β) (x : β) :
+    splineFn ε cfg c x = splineVal cfg.nSplines cfg.order ε c (cfg.rescale x) := by
+  simp [splineFn, splineVal, basisRow, hper]
+
+theorem rescale_mono (cfg : BasisCfg β) (x x' : β) (h : x ≤ x') : cfg.rescale x ≤ cfg.rescale x' := by
+  have hs : 0 < cfg.scale := by
+    have hl : cfg.lo ≤ cfg.hi := by
+      simp only [BasisCfg.lo, BasisCfg.hi]; split <;> [exact le_of_lt ‹_›; exact not_lt.mp ‹_›]
+    simp only [BasisCfg.scale]; split
+    · exact zero_lt_one
+    · rename_i hne; exact lt_of_le_of_ne (by linarith) (Ne.symm hne)
+  simp only [BasisCfg.rescale]
+  exact div_le_div_of_nonneg_right (by linarith) (le_of_lt hs)
+
+/-- **monotone increasing**: if the coefficients are non-decreasing (exactly when the monotonic_inc
+constraint matrix vanishes, `monoInc_zero_iff`) the spline of order ≥ 1 is non-decreasing on the whole
+real line — inside the knot range and on both linear continuations -/
+theorem spline_mono_of_coef_mono (ε : β) (hε : 0 ≤ ε) (cfg : BasisCfg β) (hper : cfg.periodic = false)
+    (hn : cfg.order < cfg.nSplines) (hp : 0 < cfg.order) (c : Nat → β)
+    (hc : ∀ j, j + 1 < cfg.nSplines → c j ≤ c (j+1)) (x x' : β) (hxx : x ≤ x') :
+    splineFn ε cfg c x ≤ splineFn ε cfg c x' := by
+  rw [splineFn_eq ε cfg hper, splineFn_eq ε cfg hper]
+  exact splineVal_mono _ _ ε hn hp hε c hc _ _ (rescale_mono cfg x x' hxx)
+
+/-- **monotone decreasing** -/
+theorem spline_anti_of_coef_anti (ε : β) (hε : 0 ≤ ε) (cfg : BasisCfg β) (hper : cfg.periodic = false)
+    (hn : cfg.order < cfg.nSplines) (hp : 0 < cfg.order) (c : Nat → β)
+    (hc : ∀ j, j + 1 < cfg.nSplines → c (j+1) ≤ c j) (x x' : β) (hxx : x ≤ x') :
+    splineFn ε cfg c x' ≤ splineFn ε cfg c x := by
+  have h := spline_mono_of_coef_mono ε hε cfg hper hn hp (fun j => - c j)
+    (fun j hj => by have := hc j hj; linarith) x x' hxx
+  have e : ∀ z, splineFn ε cfg (fun j => - c j) z = - splineFn ε cfg c z := by
+    intro z; simp [splineFn, sum_neg_distrib]
+  rw [e, e] at h; linarith
+
+/-- order 0 (piecewise constant) is covered inside the knot range -/
+theorem spline_mono_inside_any_order (ε : β) (hε : 0 ≤ ε) (cfg : BasisCfg β) (hper : cfg.periodic = false)
+    (hn : cfg.order < cfg.nSplines) (hε0 : cfg.order = 0 → 0 < ε) (c : Nat → β)
+    (hc : ∀ j, j + 1 < cfg.nSplines → c j ≤ c (j+1)) (x x' : β)
+    (h0 : 0 ≤ cfg.rescale x) (hxx : x ≤ x') (h1 : cfg.rescale x' ≤ 1) :
+    splineFn ε cfg c x ≤ splineFn ε cfg c x' := by
+  rw [splineFn_eq ε cfg hper, splineFn_eq ε cfg hper]
+  exact splineVal_mono_inside _ _ ε hn hε hε0 c hc _ _ h0 (rescale_mono cfg x x' hxx) h1
+
+end function_level
 
 /-- non-vacuity: c = (1,3,2,5) violates monotone-increasing once, by 1 -/
 example : quadForm 4 (monoPen (α := Int) true 4 (fun k => [1,3,2,5].getD k 0)) (fun k => [1,3,2,5].getD k 0) = 1 := by
